@@ -151,7 +151,8 @@ def _job_histories(args):
         calls = []
         for (name, payload, own, as_message) in h:
             if as_message:
-                calls.append(observe(dec, payload, own, message=DlmsMessage(payload), twin=twin))
+                desc = as_message if isinstance(as_message, str) else "dlms"
+                calls.append(observe(dec, payload, own, message=message_from(desc, payload), twin=twin, msgdesc=desc))
             else:
                 calls.append(observe(dec, payload, own))
                 guarded(twin.decode_message_payload, payload)
@@ -399,6 +400,15 @@ def run_c12(chk: Check) -> int:
             hists.append([a + (False,), b + (False,), c + (rng.random() < 0.3,)])
     for _ in range(150 if quick else 1500):
         hists.append([rng.choice(pool) + (rng.random() < 0.3,) for _ in range(rng.randint(3, 30))])
+    # decode_message == decode_message_payload whatever the envelope says about itself: intact and damaged HDLC frames around
+    # every genuine message, and DLMS messages too short to be "valid" that a decoder nevertheless accepts
+    for g in gen:
+        for desc in ("hdlc", "hdlc_badfcs", "dlms"):
+            hists.append([g + (desc,)])
+        hists.append([g + (False,), g + ("hdlc_badfcs",)])
+    for tiny in (b"\x02\x00", b"\x02\x01\x0f\x05", b"\x02\x01\x00", b"\x01\x00"):
+        hists.append([("tiny:" + tiny.hex(), tiny, 0, "dlms")])
+        hists.append([gen[0] + (False,), ("tiny:" + tiny.hex(), tiny, 0, "dlms")])
     for g in bnd:                   # boundary-valued genuine messages: fresh decoder, and after a same-meter message
         hists.append([g + (False,)])
         same = [x for x in gen if x[2] == g[2]]
